@@ -16,15 +16,22 @@ pub fn run(case: &Value) -> Value {
     let log: dynpipe::Log = Rc::new(RefCell::new(Vec::new()));
     let mut w = dynpipe::build(&case["pipe"], &log);
     let mut calls = Vec::new();
+    let mut stats_seq = Vec::new();
+    let mut extra_seq = Vec::new();
     for (i, e) in case["events"].as_array().into_iter().flatten().enumerate() {
         let ev = tables.build(&e["ev"], e["meta"].as_u64().unwrap_or(i as u64));
         w.0.handle(ev);
         calls.push(Value::Array(std::mem::take(&mut *log.borrow_mut())));
+        let st = w.0.stats();
+        stats_seq.push(json!([st[0], st[1], st[2], st[3], st[4], st[5], w.0.failed()]));
+        extra_seq.push(w.0.extra());
     }
     w.0.write("hello".to_owned());
     let writes = Value::Array(std::mem::take(&mut *log.borrow_mut()));
     json!({
         "calls": calls,
+        "stats_seq": stats_seq,
+        "extra_seq": extra_seq,
         "writes": writes,
         "stats": w.0.stats().to_vec(),
         "failed": w.0.failed(),
